@@ -28,7 +28,7 @@ ENTRY = {
                 "Tie: per generated statement the engine's QueryResult.schema, physical-plan schema, batch schemas and array types are compared with each other and with schemaOf / the written aliases, empty results included.",
         "design_ref": "DESIGN.md §6 C30",
         "level_note": "The quantifier over all successfully planned statements is discharged for the reference semantics by induction (for the covered plan fragment) and for the engine only by sampled statements. "
-                      "Findings C30-F1 (UNION branches' batch column names, fixed c782bf1) and C30-F2 (same-width integer arithmetic reported one width wider, fixed 60af991) are regression cases now. Trusted: Lean kernel; propext/Classical.choice/Quot.sound; Spec semantics; sqlgen; harness.",
+                      "Findings C30-F1 (UNION branches' batch column names, fixed c782bf1) and C30-F2 (same-width integer arithmetic reported one width wider, fixed 60af991) are regression cases now; open: C30-F4 (arithmetic with a DECIMAL operand is reported as Decimal128(38,10) whatever the executor returns). Trusted: Lean kernel; propext/Classical.choice/Quot.sound; Spec semantics; sqlgen; harness.",
         "technique": "Lean 4 type-soundness proof over the reference semantics + differential correspondence of the engine's reported schemas",
     },
 }
